@@ -11,8 +11,8 @@ COMMON_ASSUMPTIONS = [
 CONFIG = {}
 
 CONFIG["C13"] = {
-    "budget_s": {"quick": 60, "thorough": 900},
-    "floor": {"quick": 5000, "thorough": 100000},
+    "budget_s": {"quick": 60, "thorough": 600},
+    "floor": {"quick": 5000, "thorough": 15000},
     "rule": ("cases are (a) blocks of naturals: all n in [1,2^16] (thorough 2^22), all n within 64 of every 2^k (k<=31), random magnitudes; each n is "
              "encoded, compared bit-for-bit with the specification code, decoded at a random bit offset with random trailing bits into "
              "u8/u16/u32/u64/usize/i32, with bounds {n-1,n,n+1,0,1,max,random} and every byte-truncation; (b) every 1- and 2-byte string "
@@ -26,8 +26,8 @@ CONFIG["C13"] = {
 }
 
 CONFIG["C10"] = {
-    "budget_s": {"quick": 90, "thorough": 1200},
-    "floor": {"quick": 20000, "thorough": 500000},
+    "budget_s": {"quick": 90, "thorough": 600},
+    "floor": {"quick": 20000, "thorough": 60000},
     "rule": ("a case is a random finalized type (grammar 1 | A+B | A*B | 2^(2^n) | option | buffer8 | ctx8, three size classes), a random (or all-left / all-right) "
              "abstract value of it and one of seven production histories (constructor tree, integer constructors, from_compact_bits, from_padded_bits with "
              "ones/random bits in every padding position, sub-value extraction through as_left/as_right/as_product from a larger value, extraction from a "
@@ -41,8 +41,8 @@ CONFIG["C10"] = {
 }
 
 CONFIG["C11"] = {
-    "budget_s": {"quick": 90, "thorough": 1200},
-    "floor": {"quick": 5000, "thorough": 200000},
+    "budget_s": {"quick": 90, "thorough": 600},
+    "floor": {"quick": 5000, "thorough": 15000},
     "rule": ("a case is a random type and abstract value realised through all eight histories (the seven of C10 plus Bit Machine output of a scribe program run "
              "after a frame filled with ones/0xAA/random bits was released, so sum padding of the output is dirty); all pairs (and each with itself) must be ==, "
              "hash equally (DefaultHasher) and cmp Equal, as Value and, for word types, as Word; a different value of the same type realised through all histories "
@@ -50,12 +50,12 @@ CONFIG["C11"] = {
              "'tiny-types-exhaustive' does this for every type with <=3 (thorough 4) constructors and all of its values. Non-trivial: width > 0."),
     "exhaustive_claim": "all types with at most 3 (thorough: 4) constructors x all value pairs x all 8x8 history pairs",
     "assumptions": COMMON_ASSUMPTIONS + ["each history is first checked to denote the intended abstract value (through compact/padded bits), so a failure here is a failure of the comparison traits"],
-    "counter_floors": {"quick": {"history.machine-output-dirty-frame": 1000}, "thorough": {"history.machine-output-dirty-frame": 20000}},
+    "counter_floors": {"quick": {"history.machine-output-dirty-frame": 1000}},
 }
 
 CONFIG["C18"] = {
-    "budget_s": {"quick": 90, "thorough": 1500},
-    "floor": {"quick": 5000, "thorough": 100000},
+    "budget_s": {"quick": 90, "thorough": 600},
+    "floor": {"quick": 5000, "thorough": 15000},
     "rule": ("cases are blocks of 512 DAG shapes: every assignment of children (none | one earlier node | ordered pair of earlier nodes, possibly the same twice) "
              "to n <= 7 (thorough 8) nodes, kept when every node is reachable from the root, plus random 8..40-node shapes; each shape is iterated through a harness "
              "type implementing the public DagLike trait under NoSharing, InternalSharing and a structural (unfolded-subtree) tracker: post_order_iter, "
@@ -64,12 +64,12 @@ CONFIG["C18"] = {
              "Non-trivial: block contains at least one fully reachable shape; distinct: distinct blocks / shapes."),
     "exhaustive_claim": "all DAG shapes with at most 7 (thorough: 8) nodes in which every node is reachable from the root, x 3 sharing trackers x 5 iterators",
     "assumptions": COMMON_ASSUMPTIONS + ["identity-hash sharing is represented by a harness tracker whose class is the hash of the unfolded subtree; real CommitNode/RedeemNode DAGs under MaxSharing are exercised by C01/C02"],
-    "counter_floors": {"quick": {"shapes": 100000}, "thorough": {"shapes": 1000000}},
+    "counter_floors": {"quick": {"shapes": 100000}},
 }
 
 CONFIG["C19"] = {
-    "budget_s": {"quick": 60, "thorough": 900},
-    "floor": {"quick": 2000, "thorough": 30000},
+    "budget_s": {"quick": 60, "thorough": 600},
+    "floor": {"quick": 2000, "thorough": 6000},
     "rule": ("a case is a witness stack (empty; single item straddling 252/253 and 65535/65536; 251..254 and 65534..65536 tiny items; mixed; typical spend; random) "
              "checked against every deficit in [-3,300] u [65500,65560] x remainders {-999,-1,0,1,500,999} (exhaustive sub-check), against random costs up to the "
              "consensus maximum, and cost<->weight conversions over runs of 40 consecutive costs near 0, near the consensus maximum and near u32::MAX. "
@@ -77,12 +77,12 @@ CONFIG["C19"] = {
              "after appending the annex), fix-point, and minimality unless the item count is 252 or 65535. Distinct: distinct stacks / cost runs."),
     "exhaustive_claim": "every deficit in [-3,300] and [65500,65560] x 6 remainders for each generated stack",
     "assumptions": COMMON_ASSUMPTIONS + ["compact-size rule: 1 byte <= 252, 3 bytes <= 65535, 5 bytes <= 2^32-1"],
-    "counter_floors": {"quick": {"minimality-checked": 50000}, "thorough": {"minimality-checked": 500000}},
+    "counter_floors": {"quick": {"minimality-checked": 50000}},
 }
 
 CONFIG["C05"] = {
-    "budget_s": {"quick": 120, "thorough": 1500},
-    "floor": {"quick": 8000, "thorough": 300000},
+    "budget_s": {"quick": 120, "thorough": 600},
+    "floor": {"quick": 8000, "thorough": 24000},
     "rule": ("a case is a random source type A and target type B (type grammar of C10), a type-directed random program A -> B over all combinators "
              "(iden unit injl injr take drop comp case assertl assertr pair disconnect witness fail word) and the Core jets that have a harness reference function, "
              "with pointer-shared and structurally duplicated sub-expressions, principal types from the harness's own inference (root pinned to A -> B), witness "
@@ -96,8 +96,8 @@ CONFIG["C05"] = {
 }
 
 CONFIG["C04"] = {
-    "budget_s": {"quick": 120, "thorough": 1800},
-    "floor": {"quick": 15000, "thorough": 500000},
+    "budget_s": {"quick": 120, "thorough": 600},
+    "floor": {"quick": 15000, "thorough": 45000},
     "rule": ("a case is a combinator DAG: (i) arbitrary bottom-up random DAGs of 2..40 (thorough 200) nodes over all combinators, words, fail, witness, disconnect with and without branch and "
              "Core/Elements jets as typed leaves, (ii) type-directed well-typed programs, one third of them with one node mutated, (iii) occurs-check seeds, sharing towers and chains by depth, "
              "(iv) two deep well-typed families at depths 100..160000. Every node reachable from the root is constructed exactly once, in the natural order and in 3 (thorough 11) further random "
@@ -105,12 +105,12 @@ CONFIG["C04"] = {
              "acceptance must agree, every visited node's arrow must equal the model's principal solution and satisfy its combinator's typing rule, all orders must agree, errors must display in < 1 MiB, no panic. "
              "Non-trivial: >= 3 nodes; distinct: distinct DAG renderings."),
     "assumptions": COMMON_ASSUMPTIONS + ["nodes that a commitment-time finalisation does not visit (right branches of disconnect) contribute constraints but are not occurs-checked, mirroring what finalisation walks"],
-    "counter_floors": {"quick": {"model.occurs": 200, "model.well-typed": 5000, "model.clash": 5000}, "thorough": {"model.occurs": 5000}},
+    "counter_floors": {"quick": {"model.occurs": 200, "model.well-typed": 5000, "model.clash": 5000}},
 }
 
 CONFIG["C09"] = {
-    "budget_s": {"quick": 90, "thorough": 1500},
-    "floor": {"quick": 8000, "thorough": 400000},
+    "budget_s": {"quick": 90, "thorough": 600},
+    "floor": {"quick": 8000, "thorough": 24000},
     "rule": ("a case is a type-directed random 1->1 program (no jets / Core jets / Elements jets; sharing and structural duplicates; witnesses, assertions with random or real hidden roots, "
              "disconnect, fail, words). The from-scratch tagged-SHA256 commitment root of every node (harness SHA-256, IVs derived from the tag strings) is compared with cmr() of: every ConstructNode, "
              "every node built through the Hiding wrapper with a random sixth of the sub-expressions hidden, the CommitNode and each of its nodes, unfinalize_types, the NamedCommitNode `main`, "
@@ -118,12 +118,12 @@ CONFIG["C09"] = {
              "A per-worker map root -> one-level committed structure (children by root) reports two structures with one root. Word constants 2^1..2^512 separately. "
              "Non-trivial: >= 4 nodes; distinct: distinct program renderings."),
     "assumptions": COMMON_ASSUMPTIONS + ["jet roots are taken from the jet tables (C14 compares those with C); Policy::cmr / the CMR-only compiler is not public API and is covered in C16"],
-    "counter_floors": {"quick": {"variant.hiding": 10000, "variant.redeem": 15000, "variant.pruned": 5000}, "thorough": {"variant.hiding": 500000}},
+    "counter_floors": {"quick": {"variant.hiding": 10000, "variant.redeem": 15000, "variant.pruned": 5000}},
 }
 
 CONFIG["C01"] = {
-    "budget_s": {"quick": 120, "thorough": 1800},
-    "floor": {"quick": 20000, "thorough": 800000},
+    "budget_s": {"quick": 120, "thorough": 600},
+    "floor": {"quick": 20000, "thorough": 60000},
     "rule": ("a case is a type-directed random 1->1 program (no jets / Core / Elements; pointer-shared and structurally duplicated sub-expressions incl. duplicated witness nodes with equal values; "
              "assertions with random and real hidden roots, some shared; disconnect with branch; fail; words; witnesses of every type shape projected to the principal types and realised through mixed "
              "value histories). Redemption time: finalize_unpruned -> to_vec_with_witness -> RedeemNode::decode; node lists under MaxSharing must agree position by position on CMR, source/target TMR, "
@@ -132,13 +132,13 @@ CONFIG["C01"] = {
              "hold exactly the program's witness values in order with only zero padding after. Commitment time: finalize_types -> to_vec_without_witness -> CommitNode::decode with the same comparisons "
              "(IHR/AMR where defined), witness/disconnect-containing sub-expressions occurring once. Non-trivial: >= 5 nodes; distinct: distinct program renderings."),
     "assumptions": COMMON_ASSUMPTIONS + ["jet bit codes are taken from the jet tables (C14)", "Bitcoin jets excluded (roots unimplemented by design)"],
-    "counter_floors": {"quick": {"witness-values": 20000, "has-hidden": 500, "has-disconnect": 2000, "sharing-merged-nodes": 10000}, "thorough": {"witness-values": 500000}},
+    "counter_floors": {"quick": {"witness-values": 20000, "has-hidden": 500, "has-disconnect": 2000, "sharing-merged-nodes": 10000}},
 }
 
 CONFIG["C02"] = {
-    "budget_s": {"quick": 120, "thorough": 2400},
+    "budget_s": {"quick": 120, "thorough": 600},
     "hang_is_violation": True,
-    "floor": {"quick": 20000, "thorough": 1000000},
+    "floor": {"quick": 20000, "thorough": 60000},
     "rule": ("a case is a (program bytes, witness bytes) pair offered to RedeemNode::decode, CommitNode::decode and ConstructNode::decode with the Core or the Elements jet family: "
              "(a) random strings (length skewed to 1..64 bytes, two thirds with a small node count spliced in as length prefix), (b) 1-2 byte-level mutations (bit flip, truncate, extend, swap, "
              "overwrite, insert, delete) of the library's own encodings of generated programs, (c) encodings hand-assembled with the harness's bit-level encoder to violate exactly one rule: "
@@ -153,8 +153,8 @@ CONFIG["C02"] = {
 }
 
 CONFIG["C07"] = {
-    "budget_s": {"quick": 120, "thorough": 1800},
-    "floor": {"quick": 10000, "thorough": 500000},
+    "budget_s": {"quick": 120, "thorough": 600},
+    "floor": {"quick": 10000, "thorough": 30000},
     "passes": [{"variant": "verif"}, {"variant": "rel"}],
     "rule": ("(1) type-directed programs biased towards deep comp/disconnect nesting (fuel up to 40, thorough 120), case branches of unequal size, Core jets, witnesses, and programs over wide types "
              "(up to ~1500 bits, words to 2^9): each is run on three inputs (all-left, all-right, random) through BitMachine::for_program/input/exec; the verif-hooks readings are judged after every run, "
@@ -164,12 +164,12 @@ CONFIG["C07"] = {
              "Slack histograms are telemetry. Non-trivial: >= 5 nodes; distinct: distinct program renderings / bomb names."),
     "exhaustive_claim": "the 34 listed bomb programs",
     "assumptions": COMMON_ASSUMPTIONS + ["the cost bound is not compared with a measured cost here (C03 compares it with C)", "a BitMachine is used for exactly one exec"],
-    "counter_floors": {"quick": {"run.ok": 20000, "run.failed": 2000, "bomb.refused": 20}, "thorough": {"run.ok": 500000}},
+    "counter_floors": {"quick": {"run.ok": 20000, "run.failed": 2000, "bomb.refused": 20}},
 }
 
 CONFIG["C12"] = {
-    "budget_s": {"quick": 120, "thorough": 1500},
-    "floor": {"quick": 15000, "thorough": 500000},
+    "budget_s": {"quick": 120, "thorough": 600},
+    "floor": {"quick": 15000, "thorough": 45000},
     "rule": ("a case is a type-directed 1->1 program with Core jets and at least one witness node (case nodes put some on unexecuted branches), and for every witness slot a candidate value: "
              "of the inferred type, too wide (extra component / grown type), too narrow (pruned), unit, same width but another shape, one tag and one padding bit wider, or of a random type. "
              "Routes: ConstructNode::witness(Some(v)) + finalize_unpruned / finalize_pruned(CoreEnv); Forest::from_program + to_witness_node(map) + finalize_unpruned / finalize_pruned; RedeemNode::decode of valid "
@@ -177,24 +177,24 @@ CONFIG["C12"] = {
              "serialisation decodes and re-encodes identically, whose execution has zero out-of-frame accesses and stays within bounds (hooks), and whose prune does not panic and stays well-typed; all-correct "
              "witnesses must be accepted. No panic anywhere. Non-trivial: every case with >= 1 witness node; distinct: distinct (program, candidates) renderings."),
     "assumptions": COMMON_ASSUMPTIONS + ["the value-list finaliser (SimpleFinalizer), documented as unchecked, is not driven with wrong types"],
-    "counter_floors": {"quick": {"candidate.TooWide": 3000, "candidate.TooNarrow": 3000, "candidate.SameWidthOtherShape": 3000, "construct+finalize_unpruned.ok": 3000, "witness-map+finalize_unpruned.ok": 3000}, "thorough": {}},
+    "counter_floors": {"quick": {"candidate.TooWide": 3000, "candidate.TooNarrow": 3000, "candidate.SameWidthOtherShape": 3000, "construct+finalize_unpruned.ok": 3000, "witness-map+finalize_unpruned.ok": 3000}},
 }
 
 CONFIG["C03"] = {
-    "budget_s": {"quick": 120, "thorough": 1800},
-    "floor": {"quick": 30000, "thorough": 2000000},
+    "budget_s": {"quick": 120, "thorough": 600},
+    "floor": {"quick": 30000, "thorough": 90000},
     "rule": ("a case is a (program bytes, witness bytes) pair: (1) the library's own redemption-time encoding of a type-directed random 1->1 Elements program (all 471 jets may appear as leaves; witnesses of "
              "every type shape; assertions; disconnect; fail; words; sharing), (2) the same with 1-2 byte-level mutations, (3) random strings. Rust: RedeemNode::decode::<Elements>; C: decodeMallocDag, "
              "mallocTypeInference, fillWitnessData, computeAnnotatedMerkleRoot, verifyNoDuplicateIdentityHashes, analyseBounds (unbounded), 1->1 check, called through simplicity-sys. Oracle: both accept or both "
              "reject, except C's FailCode when the program contains a fail node, and C-only Malloc/ExecMemory/ExecBudget/size refusals (inconclusive); when both accept, CMR, AMR, IHR and the cost bound are bit-identical. "
              "Non-trivial: every compared pair; distinct: distinct byte pairs."),
     "assumptions": COMMON_ASSUMPTIONS + ["libsimplicity as vendored in simplicity-sys/depend is the reference", "pruned programs are compared with C in C08"],
-    "counter_floors": {"quick": {"both-accept": 5000, "both-reject": 20000, "fail-node-exception": 500}, "thorough": {"both-accept": 300000}},
+    "counter_floors": {"quick": {"both-accept": 5000, "both-reject": 20000, "fail-node-exception": 500}},
 }
 
 CONFIG["C06"] = {
-    "budget_s": {"quick": 120, "thorough": 1800},
-    "floor": {"quick": 8000, "thorough": 400000},
+    "budget_s": {"quick": 120, "thorough": 600},
+    "floor": {"quick": 8000, "thorough": 24000},
     "rule": ("(1) every one of the 471 Elements jets wrapped as comp (comp witness[v] jet) unit, 6 (thorough 60) rounds each, v a plausible input of the jet's source type (small and out-of-range indices for 2^32, "
              "valid curve x-coordinates for 2^256 components, valid BIP-340 triples for bip_0340_verify, all-left/all-right/random otherwise) in a freshly generated transaction environment; "
              "(2) type-directed random 1->1 Elements programs without fail nodes (all jets as leaves, witnesses, assertions, disconnect, sharing) in generated environments. Both are run on the Rust Bit Machine "
@@ -203,24 +203,24 @@ CONFIG["C06"] = {
              "Non-trivial: every compared pair (programs: >= 5 nodes); distinct: distinct (program/jet+input, environment) renderings."),
     "exhaustive_claim": "all 471 Elements jets are executed on both evaluators in every run (inputs and environments are sampled)",
     "assumptions": COMMON_ASSUMPTIONS + ["agreement is on verdict and failure kind, not on intermediate machine state"],
-    "counter_floors": {"quick": {"agree.Ok": 5000, "agree.Jet": 1000, "agree.Assert": 100}, "thorough": {"agree.Ok": 200000}},
+    "counter_floors": {"quick": {"agree.Ok": 5000, "agree.Jet": 1000, "agree.Assert": 100}},
 }
 
 CONFIG["C08"] = {
-    "budget_s": {"quick": 150, "thorough": 1800},
-    "floor": {"quick": 6000, "thorough": 300000},
+    "budget_s": {"quick": 150, "thorough": 600},
+    "floor": {"quick": 6000, "thorough": 18000},
     "rule": ("a case is a type-directed 1->1 program biased to sharing (25% pointer reuse, so the same case node is reached under several comp contexts with different choices), with witnesses of sum/product types, "
              "disconnect, assertions, occasionally fail, without jets or with Elements jets, and a generated Elements environment. If the run succeeds: prune must succeed, keep the CMR, run successfully within bounds "
              "(hooks), keep every witness well-typed, be idempotent (same IHR and bytes when pruned again), serialise to bytes that RedeemNode::decode reads back identically and that the C implementation accepts with "
              "CHECK_ALL (every node executed, both branches of every case taken) in the same environment, with C's CMR/AMR/IHR/cost equal to Rust's; finalize_pruned from the construct node must give the same IHR. "
              "If the run fails: prune fails with the same kind of error. Non-trivial: the program contains at least one case node; distinct: distinct (program, environment) renderings."),
     "assumptions": COMMON_ASSUMPTIONS + ["environments in which the run fails are only checked for clean failure"],
-    "counter_floors": {"quick": {"run-ok": 20000, "pruned.has-assertions": 3000, "run-failed.prune-failed-same-kind": 1000}, "thorough": {"run-ok": 800000}},
+    "counter_floors": {"quick": {"run-ok": 20000, "pruned.has-assertions": 3000, "run-failed.prune-failed-same-kind": 1000}},
 }
 
 CONFIG["C14"] = {
-    "budget_s": {"quick": 120, "thorough": 1500},
-    "floor": {"quick": 5000, "thorough": 50000},
+    "budget_s": {"quick": 120, "thorough": 600},
+    "floor": {"quick": 5000, "thorough": 15000},
     "post_steps": [{"name": "ffi_boundary", "jet_reps": 1}],
     "rule": ("(1) for all 368 Core, 471 Elements and 428 Bitcoin jets: decode(encode(j)) == j consuming exactly the code at two alignments with junk behind, byte-aligned strict prefixes give EndOfStream, "
              "the sorted code list is prefix-free, every bit string of <= 12 bits that is neither a code, a prefix nor an extension of one gives InvalidJet, the display name parses back, type names expand to types of the "
@@ -232,12 +232,12 @@ CONFIG["C14"] = {
              "and the first real call of each function is observed (pointer formals must be NULL or readable). Non-trivial: every case; distinct: distinct jets / (jet, repetition) pairs."),
     "exhaustive_claim": "all 368+471+428 jet table entries (monitor 1), all 471 Elements jets against C (monitor 2), all 497 extern declarations against debug info (monitor 5); inputs of monitor 3 are sampled",
     "assumptions": COMMON_ASSUMPTIONS + ["return-type differences that are ABI-compatible on x86-64 are observed but not judged", "Bitcoin family: codes, names and type names only (roots, costs and bindings are unimplemented in this revision)"],
-    "counter_floors": {"quick": {"exec.both-ok": 5000, "table.Core": 368, "table.Elements": 471, "table.Bitcoin": 428, "namesakes": 368}, "thorough": {"exec.both-ok": 60000}},
+    "counter_floors": {"quick": {"exec.both-ok": 5000, "table.Core": 368, "table.Elements": 471, "table.Bitcoin": 428, "namesakes": 368}},
 }
 
 CONFIG["C15"] = {
-    "budget_s": {"quick": 120, "thorough": 1800},
-    "floor": {"quick": 800, "thorough": 40000},
+    "budget_s": {"quick": 120, "thorough": 600},
+    "floor": {"quick": 800, "thorough": 2400},
     "rule": ("a case is a generated Elements transaction environment (1..5 inputs, 0..5 outputs; per input independently: pegin or not, new issuance / reissuance / none with explicit, confidential or null amounts and keys, "
              "range proofs of 0 or 65..300 bytes, script_sig 0..100 bytes, witness stack of 0..4 items with no annex / an annex of 0..80 bytes / the 1-byte annex [0x50], explicit or confidential spent asset and value; outputs with explicit or confidential "
              "asset and value, null / explicit / confidential nonce, empty, OP_RETURN, taproot-like and random scripts, surjection and range proofs; lock time in blocks / seconds / at the boundary; sequences with and without the final value; "
@@ -247,12 +247,12 @@ CONFIG["C15"] = {
              "(c) the sig_all_hash jet equals CTxEnv::sighash_all(). Non-trivial: every environment; distinct: distinct transactions."),
     "assumptions": COMMON_ASSUMPTIONS + ["aggregate digest jets (inputs_hash, tx_hash, tap_env_hash, ...) are not re-implemented: covered by the two-build consistency check, the sighash identity and C14/C06",
                                          "output assets and values are never null here (no documented reading); the annex is the last witness item when it starts with 0x50, hashed without the tag byte, as the environment builder documents"],
-    "counter_floors": {"quick": {"reference-checked": 100000, "sighash-compared": 800}, "thorough": {"reference-checked": 5000000}},
+    "counter_floors": {"quick": {"reference-checked": 100000, "sighash-compared": 800}},
 }
 
 CONFIG["C16"] = {
-    "budget_s": {"quick": 150, "thorough": 1800},
-    "floor": {"quick": 6000, "thorough": 200000},
+    "budget_s": {"quick": 150, "thorough": 600},
+    "floor": {"quick": 6000, "thorough": 18000},
     "rule": ("a case is a policy over 4 key pairs and 4 hash preimages drawn per case, with after(n) and older(n) leaves placed at, just below and just above the lock height / lock distance the jets read from the case's generated transaction "
              "(lock time 0, small, 499999999, >= 500000000 or random; sequences final, 0xfffffffe, block-based, time-based, disabled or random; version 1, 2, 3 or 2^32-1), trivial and unsatisfiable leaves, and and/or/threshold (1..6 children, 0 <= k <= n) "
              "nodes to depth 5 and 40 nodes. Sub `small-policies-all-availability` enumerates 7 two-level shapes x 9^3 leaf triples and all 8 availability patterns of the keys and the preimage they mention; sub `generated-policies` samples trees "
@@ -267,8 +267,8 @@ CONFIG["C16"] = {
 }
 
 CONFIG["C17"] = {
-    "budget_s": {"quick": 200, "thorough": 2400},
-    "floor": {"quick": 150000, "thorough": 3000000},
+    "budget_s": {"quick": 200, "thorough": 600},
+    "floor": {"quick": 150000, "thorough": 450000},
     "hang_is_violation": True,
     "rule": ("sub `program-roundtrip`: a case is a generated well-typed commit program (no jets / Core / Elements; witnesses, commit-time assertions, disconnect, fail, words, pointer-shared and structurally duplicated sub-expressions), "
              "rendered with Forest::from_program + string_serialize and parsed back: the text must parse to the single root `main` with the same CMR, the same node list (combinator, child positions, CMR, source and target type roots, in maximal-sharing post order) and the same bit encoding. "
@@ -288,8 +288,8 @@ SAN_ENV_TSAN = {"TSAN_OPTIONS": "halt_on_error=1 exitcode=66 report_signal_unsaf
 SAN_ENV_ASAN = {"ASAN_OPTIONS": "halt_on_error=1 abort_on_error=1 detect_leaks=1 allocator_may_return_null=1", "LSAN_OPTIONS": "exitcode=23"}
 
 CONFIG["C20"] = {
-    "budget_s": {"quick": 150, "thorough": 2400},
-    "floor": {"quick": 1000, "thorough": 100000},
+    "budget_s": {"quick": 150, "thorough": 600},
+    "floor": {"quick": 1000, "thorough": 3000},
     "hang_is_violation": True,
     "passes": [
         {"variant": "verif"},
@@ -323,12 +323,12 @@ def _add_passes(prop, extra):
 # AddressSanitizer + LeakSanitizer with the C library instrumented, on a pseudo-random subset of every sub-check
 for _p, _q, _t in [("C03", 2, 25), ("C05", 6, 25), ("C06", 3, 25), ("C08", 6, 25), ("C14", 5, 40), ("C15", 6, 25), ("C16", 2, 25), ("C12", 2, 25), ("C07", 4, 15)]:
     _add_passes(_p, [
-        {"variant": "asan", "params": {"scale_pct": _q}, "env": SAN_ENV_ASAN, "tiers": ["quick"], "budget_s": {"quick": 60, "thorough": 60}},
-        {"variant": "asan", "params": {"scale_pct": _t}, "env": SAN_ENV_ASAN, "tiers": ["thorough"]},
+        {"variant": "asan", "params": {"scale_pct": _q}, "env": SAN_ENV_ASAN, "tiers": ["quick"], "budget_s": {"quick": 60, "thorough": 600}},
+        {"variant": "asan", "params": {"scale_pct": _t}, "env": SAN_ENV_ASAN, "tiers": ["thorough"], "budget_s": {"quick": 300, "thorough": 300}},
     ])
 
 # Miri (pure-Rust paths only: these checks never call into C), thorough tier
 for _p, _s in [("C04", 1), ("C10", 1), ("C11", 1), ("C13", 1), ("C18", 1), ("C01", 1), ("C02", 1)]:
     _add_passes(_p, [
-        {"variant": "miri", "params": {"scale_pct": _s, "skip_subs": "depth-stress+nat-small-exhaustive+nat-decode-all"}, "env": MIRI_ENV, "tiers": ["thorough"], "budget_s": {"quick": 300, "thorough": 900}, "jobs": {"quick": 8, "thorough": 16}},
+        {"variant": "miri", "params": {"scale_pct": _s, "skip_subs": "depth-stress+nat-small-exhaustive+nat-decode-all"}, "env": MIRI_ENV, "tiers": ["thorough"], "budget_s": {"quick": 300, "thorough": 600}, "jobs": {"quick": 8, "thorough": 16}},
     ])
